@@ -167,6 +167,8 @@ fn tpw_strategy() -> BoxedStrategy<u128> {
         10 => 11u128..100_000,
         8 => Just(1u128 << 64),
         3 => Just(u64::MAX as u128),
+        // a hundred tokens of an 18-decimals token; a little above 2^64
+        3 => prop_oneof![Just(100_000_000_000_000_000_000u128), ((1u128 << 64) + 1)..((1u128 << 64) + 1000)],
         5 => edge_u128(),
         2 => Just(0u128),
         4 => any::<u128>(),
